@@ -8,6 +8,7 @@
   * explicit gradient formulas of the Poisson and squared-l2-abs losses
 -/
 import Scico.Proofs.AutogradDeriv
+import Mathlib.Analysis.Calculus.Deriv.Abs
 
 namespace Scico.Autograd
 open Scico
@@ -134,6 +135,51 @@ theorem residual_contracts (P JP GP : CVec ℝ n → CVec ℝ n) (x : CVec ℝ n
   refine ⟨fun d i => ?_, fun c d => ?_⟩
   · exact ((tangent_along x d i).sub (hJ d i)).congr (fun _ => rfl) rfl
   · rw [reBdot_vsub, reBdot_vsub_right, hG]
+
+/-! ### the smoothness guards are necessary -/
+
+theorem not_hasDerivAt_abs (a c : ℝ) : ¬ HasDerivAt (fun t : ℝ => a + |t|) c 0 := by
+  intro h
+  have h2 : HasDerivAt (fun t : ℝ => |t|) c 0 := by
+    have := h.sub_const a
+    refine HasDerivAt.congr' this (fun t => by ring) rfl
+  exact not_differentiableAt_abs_zero h2.differentiableAt
+
+/-- the l1 norm has no gradient at a point with a zero coordinate -/
+theorem l1_not_grad (x : CVec ℝ n) (i : Fin n) (hi : x i = 0) : ¬ ∃ g, IsGradAt (Fn.l1 : Fn ℝ n).eval x g := by
+  rintro ⟨g, hg⟩
+  have h := hg (single i ⟨1, 0⟩)
+  refine not_hasDerivAt_abs (∑ j ∈ Finset.univ.erase i, Cx.abs (x j)) _ (HasDerivAt.congr' h (fun t => ?_) rfl)
+  simp only [Fn.eval, vsum_eq]
+  have e1 : ∀ j ∈ Finset.univ.erase i, Cx.abs (along x (single i ⟨1, 0⟩) t j) = Cx.abs (x j) := by
+    intro j hj
+    have hne : j ≠ i := Finset.ne_of_mem_erase hj
+    congr 1
+    apply Cx.ext' <;> simp [along, single, hne]
+  have e2 : Cx.abs (along x (single i ⟨1, 0⟩) t i) = |t| := by
+    have : along x (single i ⟨1, 0⟩) t i = ⟨t, 0⟩ := by
+      apply Cx.ext' <;> simp [along, single, hi]
+    rw [this]
+    simp [Cx.abs, Cx.abs2, hasSqrt_real, ← sq, Real.sqrt_sq_eq_abs]
+  rw [← Finset.add_sum_erase Finset.univ (fun j => Cx.abs (along x (single i ⟨1, 0⟩) t j)) (Finset.mem_univ i),
+    e2, Finset.sum_congr rfl e1, add_comm]
+
+/-- the l2 norm has no gradient at the origin (for `n ≥ 1`) -/
+theorem l2_not_grad (i : Fin n) : ¬ ∃ g, IsGradAt (Fn.l2 : Fn ℝ n).eval (fun _ => 0) g := by
+  rintro ⟨g, hg⟩
+  have h := hg (single i ⟨1, 0⟩)
+  refine not_hasDerivAt_abs 0 _ (HasDerivAt.congr' h (fun t => ?_) rfl)
+  simp only [Fn.eval, norm2, sumAbs2_eq, hasSqrt_real, zero_add]
+  rw [Finset.sum_eq_single i]
+  · have : along (fun _ => (0 : Cx ℝ)) (single i ⟨1, 0⟩) t i = ⟨t, 0⟩ := by
+      apply Cx.ext' <;> simp [along, single]
+    rw [this]
+    simp [Cx.abs2, ← sq, Real.sqrt_sq_eq_abs]
+  · intro j _ hj
+    have : along (fun _ => (0 : Cx ℝ)) (single i ⟨1, 0⟩) t j = 0 := by
+      apply Cx.ext' <;> simp [along, single, hj]
+    rw [this]; simp [Cx.abs2]
+  · intro h; exact absurd (Finset.mem_univ _) h
 
 /-! ### `linear_adjoint` of a real-linear function -/
 
